@@ -26,6 +26,7 @@ SHAPES = {
     "space": "dir/b c.txt",
     "nonascii": "é.rs",
     "quoted": '"q\\303\\251.txt"',
+    "quoted-space": '"q \\303\\251.txt"',
     # a directory literally called like one of git's one-letter prefixes
     "prefixdir": "b/util.rs",
     "prefixdir2": "w/a/conf.toml",
@@ -61,7 +62,8 @@ def make_section(event, shape, n, prefixes=("a/", "b/"), src="git", frag=""):
     def marker(p, name):
         # git appends a tab to ---/+++ names that contain a space
         s = withq(p, name)
-        return s + ("\t" if " " in name and not quoted else "")
+        # (also when the name is quoted: `--- "a/\\303\\244 b"<TAB>`, checked against git 2.39)
+        return s + ("\t" if " " in name else "")
     pa, pb = prefixes
     hh = "@@ -1,2 +1,2 @@" + ((" " + frag) if frag else "")
     body = [" a", "-b", "+c"]
